@@ -81,6 +81,7 @@ struct Expect {                // what the peer must receive for one of its mess
   int kind = 0;                // 0 nothing, 1 token reply, 2 error, 3 introspection, 4 ping reply
   std::string text;            // token / error name
   std::vector<std::string> children;
+  bool residual_flag = false;  // (for the listed UnknownObject finding: see Scenario::node_flag)
 };
 
 struct Scenario {
@@ -88,6 +89,23 @@ struct Scenario {
   core::Trace tr;
   std::deque<Reg> regs;                       // stable addresses: user_data of the registrations
   std::map<Path, Reg *> model;                // path -> live registration
+  // Listed finding C20-unknown-object-reported-as-unknown-method, exact condition: the library answers
+  // UnknownMethod instead of UnknownObject when an EXISTING node on the way to the path still carries a set
+  // "invoke as fallback" flag without a fallback handler being registered there - the root as created (flag set),
+  // or a node whose fallback registration was removed while it stays as an interior node.  The flag of every
+  // node the library's tree holds is tracked here: set by the last successful registration at the node, false for
+  // nodes created on the way to a deeper path, gone when the node is pruned (the root is never pruned).
+  std::map<Path, bool> node_flag{{Path(), true}};
+  bool residual_fallback_flag(const Path &p) const {
+    if (node_flag.count(p)) return true;           // the node itself exists in the library's tree (the root always does)
+    for (size_t n = 0; n < p.size(); n++) {        // proper ancestors
+      Path a(p.begin(), p.begin() + (long)n);
+      auto it = node_flag.find(a);
+      if (it == node_flag.end()) return false;     // the library's walk stops where the tree ends
+      if (it->second) return true;
+    }
+    return false;
+  }
   lw::LibWorld *w = nullptr;
   DBusConnection *conn = nullptr;
   int p0 = -1;
@@ -299,6 +317,7 @@ struct Scenario {
     } else {
       e.kind = 2;
       e.text = a.found ? "org.freedesktop.DBus.Error.UnknownMethod" : "org.freedesktop.DBus.Error.UnknownObject";
+      e.residual_flag = !a.found && residual_fallback_flag(a.path);
       counters[a.found ? "probe:unknown_method" : "probe:unknown_object"]++;
     }
     expect[a.serial] = e;
@@ -335,6 +354,8 @@ struct Scenario {
       if (occupied) fail("oracle:C20:occupied-path-registered", "registering %s succeeded although a handler is registered there", ps.c_str());
       r->alive = true;
       model[p] = r;
+      for (size_t n = 0; n < p.size(); n++) { Path a(p.begin(), p.begin() + (long)n); if (!node_flag.count(a)) node_flag[a] = false; }
+      node_flag[p] = fallback;
       counters["registrations"]++;
     } else {
       std::string en = err.name ? err.name : "";
@@ -361,6 +382,13 @@ struct Scenario {
     if (ok) {
       r->alive = false;
       model.erase(r->path);
+      for (Path q = r->path; !q.empty(); q.pop_back()) {
+        // a node without handler and without children is removed, then its parent is looked at
+        bool has_child = false;
+        for (auto &kv : node_flag) if (kv.first.size() > q.size() && is_prefix(q, kv.first)) has_child = true;
+        if (model.count(q) || has_child) break;
+        node_flag.erase(q);
+      }
       if (r->unreg_calls != 1) fail("oracle:C20:unregister-function-not-run", "unregistering %s returned success but its unregister function ran %d times", ps.c_str(), r->unreg_calls);
       counters["unregistrations"]++;
     } else {
@@ -473,7 +501,7 @@ struct Scenario {
           fail("oracle:C20:wrong-reply", "call %u: expected the reply of handler %s, got %s", serial, e.text.c_str(), g.repr().c_str());
       } else if (e.kind == 2) {
         if (g.type == wire::T_ERROR && e.text == "org.freedesktop.DBus.Error.UnknownObject" && g.error_name() == "org.freedesktop.DBus.Error.UnknownMethod" &&
-            known.count("C20-unknown-object-reported-as-unknown-method")) {
+            e.residual_flag && known.count("C20-unknown-object-reported-as-unknown-method")) {
           // listed known finding: exactly this substitution, nothing else
           counters["finding:C20-unknown-object-reported-as-unknown-method"]++;
         } else if (g.type != wire::T_ERROR || g.error_name() != e.text)
